@@ -5,6 +5,9 @@
 
 #include <carquet/carquet.h>
 #include <string.h>
+#ifdef CARQUET_VERIF
+#include <stdlib.h>
+#endif
 
 #if defined(_MSC_VER)
 #include <intrin.h>
@@ -136,6 +139,30 @@ carquet_status_t carquet_init(void) {
     detect_x86_features();
 #elif defined(__aarch64__) || defined(_M_ARM64) || defined(__arm__) || defined(_M_ARM)
     detect_arm_features();
+#endif
+
+#ifdef CARQUET_VERIF
+    /* Verification hook: cap the reported CPU features so that every dispatcher
+     * level can be exercised on one machine. Inert unless the variable is set. */
+    {
+        const char* cap = getenv("CARQUET_VERIF_CPU_CAP");
+        if (cap) {
+            int lvl = -1;
+            if (strcmp(cap, "scalar") == 0) lvl = 0;
+            else if (strcmp(cap, "sse42") == 0) lvl = 1;
+            else if (strcmp(cap, "avx2") == 0) lvl = 2;
+            else if (strcmp(cap, "avx512f") == 0) lvl = 3;
+            else if (strcmp(cap, "avx512") == 0) lvl = 4;
+            if (lvl >= 0 && lvl < 4) {
+                g_cpu_info.has_avx512bw = 0;
+                g_cpu_info.has_avx512vl = 0;
+                g_cpu_info.has_avx512vbmi = 0;
+            }
+            if (lvl >= 0 && lvl < 3) g_cpu_info.has_avx512f = 0;
+            if (lvl >= 0 && lvl < 2) { g_cpu_info.has_avx2 = 0; g_cpu_info.has_avx = 0; }
+            if (lvl == 0) { g_cpu_info.has_sse42 = 0; g_cpu_info.has_sse41 = 0; }
+        }
+    }
 #endif
 
     /* Initialize compression lookup tables.
